@@ -6,6 +6,7 @@ package main
 import (
 	"fmt"
 	"go/types"
+	"golang.org/x/tools/go/ssa"
 	"strings"
 )
 
@@ -164,66 +165,65 @@ func runC17(cx *Ctx, r *Report) {
 		}
 	}
 	// ---------------- trimming counts
-	{
-		// the number of oldest values removed is (stored count − allowed history), where the
-		// stored count is computed by iterating the feed's own value prefix
-		counters := map[string]bool{}
-		for _, f := range cx.P.AllFuncs {
-			if !isConsensusCode(cx, f) || moduleOf(funcPkgPath(f)) != "oracle" || f.Parent() != nil {
-				continue
-			}
-			res := f.Signature.Results()
-			if res.Len() != 1 {
-				continue
-			}
-			if b, ok := res.At(0).Type().Underlying().(*types.Basic); !ok || b.Info()&types.IsInteger == 0 {
-				continue
-			}
-			for _, p := range cx.primsOf(f) {
-				if (p.Kind == "store.iter" || p.Kind == "store.riter") && len(p.Prefix) == 1 && p.Prefix[0] == orcValue {
-					counters[callNameOfFn(f)] = true
-				}
-			}
-		}
-		trimArg := func(x hev) string {
-			fr := x.ev.Fr
-			ps := fr.Fn.Params
-			if len(ps) == 0 {
-				return ""
-			}
-			return x.w.ts.Of(ps[len(ps)-1], fr).LooseString()
-		}
-		hasCounter := func(s string) bool {
-			for c := range counters {
-				if strings.Contains(s, c+"(") {
-					return true
-				}
-			}
-			return false
-		}
-		for _, name := range []string{"EditFeed", "RegisterResponseCallback"} {
-			del := pick(per[name], "store.delete", func(x hev) bool { return hasPrefix(x.ev, orcValue) })
-			if len(del) == 0 {
-				r.violate("trim-count", name, "", name+" no longer trims old feed values")
-				continue
-			}
-			for _, d := range del {
-				a := trimArg(d)
-				var ok bool
-				var want string
-				if name == "EditFeed" {
-					want = "(stored count − msg.LatestHistory), only when msg.LatestHistory < stored count"
-					_, g := d.factOrdered(true, "msg.LatestHistory", " < ")
-					ok = hasCounter(a) && strings.HasPrefix(a, "(") && strings.HasSuffix(a, " - msg.LatestHistory)") && g
-				} else {
-					want = "((stored count − feed.LatestHistory) + 1) before adding one value"
-					ok = hasCounter(a) && strings.Contains(a, ".LatestHistory) + 1)") && !strings.Contains(a, "msg.")
-				}
-				r.check(ok, "trim-count", name, d.ev.Pos(cx), "the number of oldest values removed is "+want, name+": removes "+trunc(a, 160)+" oldest values; expected "+want+": the feed would keep fewer (or more) than the newest latest-history values")
-			}
-		}
-	}
+	cx.oracleTrimRule(r, per, "trim-count")
 	cx.lostUpdateRule(r, []string{"oracle"}, 8)
+	// the stored aggregate is the float64 result printed with 8 decimals: every FormatFloat
+	// reachable from the aggregate functions is ('f', 8, 64) and no value is narrowed to
+	// float32 on the way (7 significant digits would then be all that is correct)
+	{
+		var roots []*ssa.Function
+		for _, f := range cx.P.AllFuncs {
+			if f.Blocks == nil || f.Parent() != nil || funcPkgPath(f) != modPrefix+"modules/oracle/types" || f.Signature.Recv() != nil {
+				continue
+			}
+			ps, rs := f.Signature.Params(), f.Signature.Results()
+			if ps.Len() != 1 || rs.Len() != 1 {
+				continue
+			}
+			if _, isSl := ps.At(0).Type().Underlying().(*types.Slice); !isSl {
+				continue
+			}
+			if b, ok := rs.At(0).Type().Underlying().(*types.Basic); !ok || b.Kind() != types.String {
+				continue
+			}
+			roots = append(roots, f)
+		}
+		n := 0
+		var bad []string
+		for _, g := range cx.Reachable(roots, nil).Order {
+			if g.Blocks == nil || !isIrismodFunc(g) {
+				continue
+			}
+			for _, b := range g.Blocks {
+				for _, ins := range b.Instrs {
+					if cv, ok := ins.(*ssa.Convert); ok {
+						if bt, ok := cv.Type().Underlying().(*types.Basic); ok && bt.Kind() == types.Float32 {
+							bad = append(bad, "conversion to float32 at "+cx.P.Pos(cv.Pos()))
+						}
+					}
+					c, ok := ins.(*ssa.Call)
+					if !ok || !calleeIs(c, "strconv", "FormatFloat") {
+						continue
+					}
+					n++
+					args := c.Common().Args
+					cs := func(i int) string {
+						if k, ok := args[i].(*ssa.Const); ok && k.Value != nil {
+							return k.Value.ExactString()
+						}
+						return "?"
+					}
+					if len(args) != 4 || cs(1) != "102" || cs(2) != "8" || cs(3) != "64" {
+						bad = append(bad, fmt.Sprintf("FormatFloat(·, %s, %s, %s) at %s", cs(1), cs(2), cs(3), cx.P.Pos(c.Pos())))
+					}
+				}
+			}
+		}
+		if len(roots) < 3 || n == 0 {
+			r.toolErr("aggregate functions / FormatFloat calls not found (%d functions, %d calls)", len(roots), n)
+		}
+		r.check(len(bad) == 0, "aggregate-format", "oracle/types", "", fmt.Sprintf("all %d FormatFloat calls of the aggregate functions are ('f', 8, 64), no float32 narrowing", n), "the aggregate is not rendered as the float64 value with 8 decimals: "+strings.Join(bad, "; ")+" - the stored feed value is only correct to float32 precision / a different number of decimals")
+	}
 	// per-feed isolation of the value history: the feed name is delimited in the value keys
 	if n := cx.nameDelimitedRule(r, "oracle", "key-name-delimited"); n < 1 {
 		r.toolErr("no oracle key constructor with a name followed by further components found (GetFeedValueKey confirmed)")
@@ -231,4 +231,70 @@ func runC17(cx *Ctx, r *Report) {
 	r.requireCount("trim-count", 2)
 	r.requireCount("creator-guard", 3)
 	r.requireCount("state-mirror", 4)
+}
+
+// oracleTrimRule (C17 trim-count; C12 shares it): the number of oldest feed values an
+// edit or a response removes is computed from the stored count and the window that
+// will be in force, so that the store never holds more values than the feed's
+// LatestHistory. Genesis import replays the exported values through the trimming
+// writer: a store that holds more than the window exports values the import drops,
+// and the re-imported chain answers value queries differently.
+func (cx *Ctx) oracleTrimRule(r *Report, per map[string][]hev, rule string) {
+	// the number of oldest values removed is (stored count − allowed history), where the
+	// stored count is computed by iterating the feed's own value prefix
+	counters := map[string]bool{}
+	for _, f := range cx.P.AllFuncs {
+		if !isConsensusCode(cx, f) || moduleOf(funcPkgPath(f)) != "oracle" || f.Parent() != nil {
+			continue
+		}
+		res := f.Signature.Results()
+		if res.Len() != 1 {
+			continue
+		}
+		if b, ok := res.At(0).Type().Underlying().(*types.Basic); !ok || b.Info()&types.IsInteger == 0 {
+			continue
+		}
+		for _, p := range cx.primsOf(f) {
+			if (p.Kind == "store.iter" || p.Kind == "store.riter") && len(p.Prefix) == 1 && p.Prefix[0] == orcValue {
+				counters[callNameOfFn(f)] = true
+			}
+		}
+	}
+	trimArg := func(x hev) string {
+		fr := x.ev.Fr
+		ps := fr.Fn.Params
+		if len(ps) == 0 {
+			return ""
+		}
+		return x.w.ts.Of(ps[len(ps)-1], fr).LooseString()
+	}
+	hasCounter := func(s string) bool {
+		for c := range counters {
+			if strings.Contains(s, c+"(") {
+				return true
+			}
+		}
+		return false
+	}
+	for _, name := range []string{"EditFeed", "RegisterResponseCallback"} {
+		del := pick(per[name], "store.delete", func(x hev) bool { return hasPrefix(x.ev, orcValue) })
+		if len(del) == 0 {
+			r.violate(rule, name, "", name+" no longer trims old feed values")
+			continue
+		}
+		for _, d := range del {
+			a := trimArg(d)
+			var ok bool
+			var want string
+			if name == "EditFeed" {
+				want = "(stored count − msg.LatestHistory), only when msg.LatestHistory < stored count"
+				_, g := d.factOrdered(true, "msg.LatestHistory", " < ")
+				ok = hasCounter(a) && strings.HasPrefix(a, "(") && strings.HasSuffix(a, " - msg.LatestHistory)") && g
+			} else {
+				want = "((stored count − feed.LatestHistory) + 1) before adding one value"
+				ok = hasCounter(a) && strings.Contains(a, ".LatestHistory) + 1)") && !strings.Contains(a, "msg.")
+			}
+			r.check(ok, rule, name, d.ev.Pos(cx), "the number of oldest values removed is "+want, name+": removes "+trunc(a, 160)+" oldest values; expected "+want+": the feed would keep fewer (or more) than the newest latest-history values")
+		}
+	}
 }
